@@ -327,7 +327,7 @@ func init() {
 		Title: "Parsing is invariant under the file's placement in a file set",
 		Plan: func(tier string, seed int64) []run.Job {
 			var jobs []run.Job
-			n, per := 8, 600
+			n, per := 16, 800
 			if tier == "thorough" {
 				n, per = 32, 4000
 			}
